@@ -8,7 +8,11 @@ from lib.common import Ctx, Build, Scratch, InfraError, REPO, pmap, plan_of
 from lib import emusrv, obs
 
 SYSCALLS = ["mkdir", "openat", "write", "read", "close", "newfstatat", "getdents64", "unlink", "rmdir", "fdatasync"]
-MUTATING = {"mkdir", "openat", "write", "unlink", "rmdir"}
+WRITES = ("write", "writev", "pwrite64", "pwritev", "pwritev2")
+MUTATING = {"mkdir", "openat", "write", "unlink", "rmdir",
+            # not used by the current runtime, traced so that a rewritten one is still covered
+            "writev", "pwrite64", "pwritev", "pwritev2", "rename", "renameat", "renameat2", "unlinkat", "mkdirat", "open", "creat",
+            "link", "linkat", "symlink", "symlinkat", "truncate", "ftruncate", "fallocate", "sendfile", "copy_file_range"}
 
 SCEN = {
     # minimal life
@@ -27,6 +31,8 @@ SCEN = {
     "h7": "A:pinit A:init A:x A:ev16 A:e A:f A:free | C:init C:x C:j4032 C:e C:f C:x C:ev16 C:e C:f C:free A:pfini",
 }
 TIDS = {"A": 101, "B": 102, "C": 101, "D": 103}
+# metadata larger than a stdio buffer (written in several chunks), relocated too
+SCEN["h9"] = "A:pinit A:init A:abig A:x A:ev0 A:e A:f A:free A:pfini"
 # three threads of one process, interleaved
 SCEN["h8"] = "A:pinit A:init B:init D:init A:x B:x D:x D:j3000 A:ev8 B:j100 D:j2000 A:f B:e D:e A:e D:f B:f A:f D:free A:free B:free A:pfini"
 
@@ -85,12 +91,12 @@ def flushed_bytes(log, tracked_prefix):
     fds = {}
     out = {}
     for (pid, sc, args, ret, tail) in log:
-        if sc == "openat" and "stream.obs" in args and "O_WRONLY|O_CREAT" in args and ret not in ("?", "-1"):
+        if sc in ("openat", "open", "creat") and "stream.obs" in args and "O_WRONLY|O_CREAT" in args and ret not in ("?", "-1"):
             m = re.search(r'thread\.(\d+)/stream\.obs', args)
             if m and tracked_prefix in args:
                 fds[int(ret)] = int(m.group(1))
                 out[int(m.group(1))] = 0        # a new stream of this thread id starts (also when the id is used again)
-        elif sc == "write" and ret not in ("?",) and int(ret) > 0:
+        elif sc in WRITES and ret not in ("?",) and int(ret) > 0:
             fd = int(args.split(",")[0])
             if fd in fds:
                 out[fds[fd]] += int(ret)
@@ -369,7 +375,12 @@ def run_c09(prop, tier):
 
 
 FAULTS = {"mkdir": ["EACCES", "ENOSPC"], "openat": ["EACCES", "ENOSPC", "EMFILE"], "write": ["ENOSPC", "EIO", "EINTR"], "read": ["EIO"],
-          "close": ["EIO"], "unlink": ["EACCES"], "rmdir": ["EACCES"], "newfstatat": ["EACCES"], "getdents64": ["EIO"], "fdatasync": ["EIO"]}
+          "close": ["EIO"], "unlink": ["EACCES"], "rmdir": ["EACCES"], "newfstatat": ["EACCES"], "getdents64": ["EIO"], "fdatasync": ["EIO"],
+          "writev": ["ENOSPC", "EIO", "EINTR"], "pwrite64": ["ENOSPC", "EIO"], "pwritev": ["ENOSPC", "EIO"], "pwritev2": ["ENOSPC", "EIO"],
+          "rename": ["EACCES", "EXDEV"], "renameat": ["EACCES", "EXDEV"], "renameat2": ["EACCES", "EXDEV"], "unlinkat": ["EACCES"], "mkdirat": ["EACCES", "ENOSPC"],
+          "open": ["EACCES", "ENOSPC", "EMFILE"], "creat": ["EACCES", "ENOSPC"], "link": ["EACCES"], "linkat": ["EACCES"], "symlink": ["EACCES"],
+          "symlinkat": ["EACCES"], "truncate": ["EIO"], "ftruncate": ["EIO"], "fsync": ["EIO"], "fallocate": ["ENOSPC"], "sendfile": ["EIO", "ENOSPC"],
+          "copy_file_range": ["EIO", "ENOSPC", "EXDEV"]}
 
 
 def run_c10(prop, tier):
@@ -380,7 +391,7 @@ def run_c10(prop, tier):
     try:
         build = Build()
         runner = Runner(build, scratch)
-        scens = ["h1", "h2"] if tier == "quick" else ["h1", "h2", "h3", "h5", "h4a", "h8", "r:h1", "r:h3", "q:h1"]
+        scens = ["h1", "h2"] if tier == "quick" else ["h1", "h2", "h3", "h5", "h4a", "h8", "h9", "r:h1", "r:h3", "q:h1"]
         if tier != "quick":
             gen = interleavings(1 if tier == "thorough" else 2)
             SCEN.update(gen)
@@ -405,7 +416,7 @@ def run_c10(prop, tier):
                             continue
                         jobs.append((sc, mode, i, s, e, None))
                 # partial completion: every write of the (single-threaded) runtime phase returns a short count once
-                if sc in ("h1", "h2"):
+                if sc in ("h1", "h2", "h9"):
                     nw = 0
                     for i, s in enumerate(seq):
                         if s["sc"] == "write" and not s["args"].startswith(("2,", "-1,")):
